@@ -26,7 +26,8 @@ COQ_SCRATCH = os.environ.get("G4_SCRATCH", "/tmp/gencode4_coq")
 # compiled in this order
 FILES = ["gen/GenCode4.v", "Proofs/GenCode4Base.v", "Proofs/GenCode4Stmt.v", "Proofs/GenCode4Stmt2.v",
          "Proofs/GenCode4Dom.v", "Proofs/GenCode4Tick.v", "Proofs/GenCode4Conv.v", "Proofs/GenCode4Add.v",
-         "Proofs/GenCode4Zone.v", "Proofs/GenCode4Cmp.v", "Proofs/GenCode4Ok.v", "Props/C01Code.v"]
+         "Proofs/GenCode4Zone.v", "Proofs/GenCode4Cmp.v", "Proofs/GenCode4Ok.v", "Props/C01Code.v",
+         "Props/C02Code.v", "Props/C04Code.v", "Props/C05Code.v", "Props/C06Code.v"]
 OWN = [os.path.basename(f)[:-2] for f in FILES]
 
 CASES = [
@@ -35,6 +36,14 @@ CASES = [
     ("same", "R1 = notes/refactors/R1.diff (helper _get_max_day_in_month extracted, chained None "
              "assignments, inverted guards, flags of add_months as boolean expressions, ...)",
      [("PATCH", "/verif/notes/refactors/R1.diff")]),
+    ("same", "T1 = notes/refactors/T1.diff (month loops as `while True: if not c: break`, private METHOD "
+             "_get_max_day_in_month(self) with early returns, divmod as hoisted local + // and %, De Morgan, "
+             "swapped == operands, reordered stores, flattened if/elif in __add__)",
+     [("PATCH", "/verif/notes/refactors/T1.diff")]),
+    ("same", "T3 = notes/refactors/T3.diff (truncated branch of _cmp extracted into _cmp_truncated, __hash__ "
+             "inverted into an early return, hoisted _truncated locals, conditional expressions for the "
+             "calendar/ordinal keys, `return op in [...]`, add_truncated reshaped)",
+     [("PATCH", "/verif/notes/refactors/T3.diff")]),
     ("same", "H1 renamed locals and x = x + y instead of x += y in _tick_over / __add__", [
         ("""            hours_remainder = self._hour_of_day - int(self._hour_of_day)
             self._hour_of_day -= hours_remainder
@@ -159,9 +168,10 @@ def fresh_tree(only_gen=False):
             glob.glob(os.path.join(COQ, "Props", "*.vo")):
         if os.path.basename(f)[:-3] not in OWN:
             os.symlink(f, os.path.join(COQ_SCRATCH, os.path.relpath(f, COQ)))
+    src = os.environ.get("G4_PROOFS_FROM", COQ)      # development: proof files not yet installed
     for f in FILES[1:]:
-        if os.path.exists(os.path.join(COQ, f)):
-            shutil.copy(os.path.join(COQ, f), os.path.join(COQ_SCRATCH, f))
+        if os.path.exists(os.path.join(src, f)):
+            shutil.copy(os.path.join(src, f), os.path.join(COQ_SCRATCH, f))
 
 
 def coqc(path):
